@@ -11,6 +11,7 @@
 
 #include "Digit.hpp"
 #include "StringStream.hpp"
+#include "JSON.hpp"
 
 using namespace Qentem;
 
@@ -212,6 +213,47 @@ static void run_c11(uint64_t c) {
         }
     }
     (void)binades;
+    // "hence numbers pass through any number of stringify / parse cycles unchanged": two cycles of a document holding 48
+    // of this batch's doubles, stringified with 17 digits from the document itself and from a pointer-to-value to it
+    {
+        Value<char>         doc;
+        std::vector<double> ds;
+        vf::Rng             r2(vf::g_seed ^ 0x5151, c);
+        for (int i = 0; i < 48; ++i) {
+            double d = gen_double(r2, uint64_t(i) * 7 + c);
+            if (d == 0.0 && std::signbit(d)) d = 0.0; // "-0" parses as the integer 0: not a real any more, out of scope here
+            ds.push_back(d);
+            if (i % 3 == 0) doc[(std::string("k") + std::to_string(i)).c_str()] = d;
+            else doc["list"] += d;
+        }
+        Value<char> view;
+        view.SetPointerToValue(&doc);
+        for (int variant = 0; variant < 2; ++variant) {
+            StringStream<char> s1, s2;
+            (variant == 0 ? doc : view).Stringify(s1, 17U);
+            Value<char> p1 = JSON::Parse(s1.First(), s1.Length());
+            p1.Stringify(s2, 17U);
+            Value<char> p2 = JSON::Parse(s2.First(), s2.Length());
+            vf::count("c11_json_cycles", 2);
+            size_t li = 0;
+            bool   ok = !p2.IsUndefined();
+            for (int i = 0; ok && i < 48; ++i) {
+                const Value<char> *m = (i % 3 == 0) ? p2.GetValue((std::string("k") + std::to_string(i)).c_str()) : (p2.GetValue("list") ? p2.GetValue("list")->GetValue(SizeT(li++)) : nullptr);
+                if (m == nullptr || !m->IsNumber()) {
+                    ok = false;
+                    break;
+                }
+                double back = m->GetDouble();
+                if (dbits(back) != dbits(ds[size_t(i)]) && !(ds[size_t(i)] == back && std::floor(back) == back && std::fabs(back) < 1.8e19)) {
+                    // (integral values come back as integers: equal value is what the cycle promises for them)
+                    vf::fail(variant == 0 ? "c11:json-cycle" : "c11:json-cycle:through-pointer", "bits=%016" PRIx64 " (%.17g) came back as %.17g text=%.200s", dbits(ds[size_t(i)]), ds[size_t(i)], back,
+                             narrow(s1.First(), s1.Length() < 200 ? s1.Length() : 200).c_str());
+                    break;
+                }
+            }
+            if (!ok) vf::fail(variant == 0 ? "c11:json-cycle" : "c11:json-cycle:through-pointer", "document did not come back: text=%.300s", narrow(s1.First(), s1.Length() < 300 ? s1.Length() : 300).c_str());
+        }
+    }
     // floats
     for (int i = 0; i < 512; ++i) {
         uint32_t b = uint32_t(r.next());
@@ -782,12 +824,23 @@ static void c10_real(double d, unsigned p, Digit::RealFormatType t, bool is_floa
         }
     }
     if (vf::g_verbose) fprintf(stderr, "TRACE c10 value=%.17g bits=%016" PRIx64 " float=%d precision=%u format=%d prefix_len=%zu unit=%zu\n", d, dbits(d), int(is_float), p, int(t), prefix.size(), sizeof(Char_T));
-    if (is_float) {
-        Digit::NumberToString(st, float(d), Digit::RealFormatInfo{p, t});
+    std::string all;
+    if (r != nullptr && r->chance(1, 5)) {
+        // a String as the destination (the library's own tests write numbers into one): same text expected
+        String<Char_T> ds;
+        for (char ch : prefix) ds += Char_T(ch);
+        if (is_float) Digit::NumberToString(ds, float(d), Digit::RealFormatInfo{p, t});
+        else Digit::NumberToString(ds, d, Digit::RealFormatInfo{p, t});
+        all = narrow(ds.First(), ds.Length());
+        vf::count("c10_string_destinations");
     } else {
-        Digit::NumberToString(st, d, Digit::RealFormatInfo{p, t});
+        if (is_float) {
+            Digit::NumberToString(st, float(d), Digit::RealFormatInfo{p, t});
+        } else {
+            Digit::NumberToString(st, d, Digit::RealFormatInfo{p, t});
+        }
+        all = narrow(st.First(), st.Length());
     }
-    std::string all = narrow(st.First(), st.Length());
     vf::count("c10_reals");
     if (all.compare(0, prefix.size(), prefix) != 0 || all.size() < prefix.size()) {
         vf::fail("c10:stream-prefix-disturbed", "value=%.17g p=%u prefix=%s stream=%s", d, p, prefix.c_str(), all.c_str());
